@@ -33,7 +33,7 @@ ASSUMPTIONS = [
     '"already present" in a list means an entry with the same serialised selectorText',
     'a/**/b is invalid, not a descendant selector: comments are only generated where white space is optional or in addition to it',
 ]
-MIN_EVENTS = {'quick': {'oracle.selector': 30000, 'oracle.attached': 3000, 'oracle.list-step': 8000, 'rejections': 800},
+MIN_EVENTS = {'quick': {'oracle.selector': 24000, 'oracle.attached': 3000, 'oracle.list-step': 8000, 'rejections': 800},
               'thorough': {'oracle.selector': 800000, 'oracle.attached': 80000, 'oracle.list-step': 200000, 'rejections': 20000}}
 
 AXES = ['neutral', 'ws', 'ws-min', 'comments', 'case', 'escapes']
